@@ -191,6 +191,8 @@ def run(prog, ctx):
     # ---------------- C03.C : rebuild after bulk stores
     n_c = 0
     _eff = {}
+    _hf = [x for v in prog.adts.get("hll::estimator::HipEstimator", {}).get("variants", []) for x in v.get("fields", [])]
+    OOO = next((n_ for n_, t_ in _hf if t_ == "bool"), "out_of_order")      # the estimator's only bool field, whatever it is called
 
     def effect(callee, field):
         """does the callee (transitively) store HipEstimator.<field>?"""
@@ -216,7 +218,7 @@ def run(prog, ctx):
             res.violate("C03.C", "C03.C|%s" % f.id, "%s stores registers in bulk but a path to its exit skips the rebuild of the cached values (no call that recomputes KxQ on that path)" % f.id, f.id)
         if f.owner == "hll::array8::Array8":
             res.obligations += 1
-            so = [b for b, site in f.calls() if effect(site.get("callee"), "out_of_order")]
+            so = [b for b, site in f.calls() if effect(site.get("callee"), OOO)]
             if so and not s.reaches_exit_avoiding(0, set(so)):
                 res.discharged += 1
             else:
@@ -225,7 +227,7 @@ def run(prog, ctx):
     rb8 = C.fn_one(prog, "hll::array8::Array8", "rebuild_estimator_from_registers")
     if rb8 is not None:
         res.obligations += 1
-        if any(effect(site.get("callee"), "kxq0") for _, site in rb8.calls()) and any(effect(site.get("callee"), "out_of_order") for _, site in rb8.calls()):
+        if any(effect(site.get("callee"), "kxq0") for _, site in rb8.calls()) and any(effect(site.get("callee"), OOO) for _, site in rb8.calls()):
             res.discharged += 1
         else:
             res.violate("C03.C", "C03.C|rebuild_estimator_from_registers", "rebuild_estimator_from_registers no longer recomputes the cached values and sets the out-of-order flag", rb8.id)
